@@ -479,6 +479,8 @@ func (b *builder) build1(v *Val) interface{} {
 			m[kv] = b.sub(v, i)
 		}
 		return m
+	case "structI":
+		return StructI{A: b.sub(v, 0), B: b.sub(v, 1)}
 	case "structA":
 		return b.structA(v)
 	case "pstructA":
